@@ -158,6 +158,10 @@ func TestVerif_ThrottleComposition(t *testing.T) {
 			if pStartFail > 0 {
 				base.startFail = func(n int) bool { return vMix(fseed^uint64(n))%100 < uint64(pStartFail) }
 			}
+			if idx%3 == 1 {
+				// storage that reports a failure from every other stop (the file is closed all the same)
+				base.stopFail = func(n int) bool { return vMix(fseed^0x57^uint64(n))%100 < 50 }
+			}
 			tc := &config.ThermalThrottler{Activate: true, BucketSize: time.Duration(cfg.BucketSecs) * time.Second, MinRefill: cfg.Refill}
 			th := NewThrottledRecorderWithClock(base, tc, cfg.MinSecs, r.events, r.clock, tCam{6, 5, cfg.FPS})
 			tap := &tapRecorder{ThrottledRecorder: th, next: th, frame: &frame, th: th}
@@ -296,6 +300,13 @@ func TestVerif_ThrottleComposition(t *testing.T) {
 				}
 			}
 			c.Count("composition_runs", 1)
+			nsf := 0
+			for _, op := range base.ops {
+				if op.Op == 'P' && op.Err {
+					nsf++
+				}
+			}
+			c.Count("base_stop_failures", int64(nsf))
 			c.Count("base_start_failures", int64(nfail))
 			c.Count("processor_starts", int64(len(tap.starts)))
 			c.Count("disk_checks", int64(base.checkSeen))
